@@ -94,6 +94,20 @@ def step (line : String) : String :=
       reply (showOpt (fun x => toString x.toInt) (C.rtr_check_interval_range (BitVec.ofNat 32 i) (BitVec.ofNat 32 lo) (BitVec.ofNat 32 hi)))
             (toString (Intervals.checkIntervalRange (UInt32.ofNat i) (UInt32.ofNat lo) (UInt32.ofNat hi)).code)
     | _, _, _ => "bad-op"
+  | ["rtr_init", r0, e0, y0, smode, tr, r, e, y, mode] =>
+    -- a socket with earlier contents (r0 e0 y0 smode, a session in progress) is initialised again
+    match r0.toNat?, e0.toNat?, y0.toNat?, smode.toInt?, tr.toNat?, r.toNat?, e.toNat?, y.toNat?, mode.toInt? with
+    | some r0, some e0, some y0, some smode, some tr, some r, some e, some y, some mode =>
+      let b0 : C.S_rtr_socket := sockOf r0 e0 y0 smode
+      let s0 : C.S_rtr_socket := { b0 with session_id := 77#32, serial_number := 5#32, last_update := 900#64, version := 0#32, has_received_pdus := true, is_resetting := true, state := 3#32 }
+      let g := C.rtr_init s0 (BitVec.ofNat 64 tr) 1#64 2#64 (BitVec.ofNat 32 r) (BitVec.ofNat 32 e) (BitVec.ofNat 32 y) (BitVec.ofInt 32 mode) 3#64 4#64 5#64
+      let m := Intervals.rtrInit (UInt32.ofNat r) (UInt32.ofNat e) (UInt32.ofNat y) mode
+      reply (showOpt (fun x => if x.1 == 0#32 then s!"0:{sockS x.2}:v{x.2.version.toNat}:lu{x.2.last_update.toNat}:rcv{x.2.has_received_pdus}:req{x.2.request_session_id}:sn{x.2.serial_number.toNat}:sess{x.2.session_id.toNat}:rst{x.2.is_resetting}"
+                               else s!"{x.1.toInt}:{sockS x.2}") g)
+            (match m with
+             | (rc, some ms) => s!"{rc}:{sockM ms}:v{ms.version}:lu{ms.lastUpdate}:rcv{ms.hasReceivedPdus}:reqtrue:sn0:sess77:rstfalse"
+             | (rc, none) => s!"{rc}:{sockS s0}")
+    | _, _, _, _, _, _, _, _, _ => "bad-op"
   | ["interval_option", r, e, y, smode, mode, iv, ty] =>
     match r.toNat?, e.toNat?, y.toNat?, smode.toInt?, mode.toInt?, iv.toNat?, ty.toNat? with
     | some r, some e, some y, some smode, some mode, some iv, some ty =>
